@@ -16,6 +16,7 @@ A property module provides:
 import collections, json, os, random, sys, time
 
 from common import *
+import floatnorm
 
 
 class Case:
@@ -37,7 +38,7 @@ class Case:
 
 
 def default_compare(case, model_line, impl_line):
-    if model_line == impl_line:
+    if floatnorm.norm(model_line) == impl_line:
         return None
     return "model and implementation differ"
 
@@ -61,6 +62,8 @@ def run_check(P, tier, seed, replay=None):
     notes = []
     hp = getattr(P, "HARNESS", {})
     profile, features = hp.get("profile", "release"), tuple(hp.get("features", ()))
+    bin_name = hp.get("bin", "core")
+    driver_name = getattr(P, "DRIVER_NAME", "core")
     vo = P.COQ_PROPS[:-2] + ".vo"
     n_thm = n_ok = 0
     axioms_used = []
@@ -78,20 +81,20 @@ def run_check(P, tier, seed, replay=None):
         bad = audit_sources()
         for b in bad:
             broken.append(("forbidden-vernacular", b, ""))
-        rd = build_driver()
-        driver = DRIVER if rd.ok else None
+        rd = build_driver(driver_name)
+        driver = driver_bin(driver_name) if rd.ok else None
         if not rd.ok:
             broken.append(("model-build", rd.detail, rd.out[-4000:]))
-        rh = build_harness(profile, features)
+        rh = build_harness(profile, features, bin_name=bin_name)
         if not rh.ok:
             broken.append(("harness-build", rh.detail, rh.out[-4000:]))
         extra_bins = {}
         for name, (pf, ft) in getattr(P, "EXTRA_HARNESS", {}).items():
-            rx = build_harness(pf, tuple(ft))
+            rx = build_harness(pf, tuple(ft), bin_name=bin_name)
             if not rx.ok:
                 broken.append(("harness-build", rx.detail + " [%s]" % name, rx.out[-4000:]))
-            extra_bins[name] = harness_bin(pf, tuple(ft))
-    harness = harness_bin(profile, features)
+            extra_bins[name] = harness_bin(pf, tuple(ft), bin_name)
+    harness = harness_bin(profile, features, bin_name)
     P.BINS = dict(extra_bins, main=harness)
 
     if not rh.ok:
